@@ -168,6 +168,7 @@ fn c10_one(ctx: &mut Ctx, c: &DayCase, pol: usize, near: f64) {
 }
 
 pub fn c10(ctx: &mut Ctx, tier: &str, r: &mut Rng, js: &[Value], reqs: &[String], replay_only: bool) {
+    purity_replay(ctx, js);
     for c in cases_from(js, reqs) {
         let (pn, pl) = policy_name(&c.p.extreme_latitude_method);
         let pol = POLICY_NAMES.iter().position(|n| *n == pn).unwrap();
@@ -203,6 +204,11 @@ pub fn c10(ctx: &mut Ctx, tier: &str, r: &mut Rng, js: &[Value], reqs: &[String]
                 ctx.sample(c.to_json());
             }
             c10_one(ctx, &c, pol, near);
+            // the policy results depend on the arguments only (one case in four, all nine neighbours)
+            if i % 4 == 0 && !purity_probe(ctx, &c) {
+                ctx.finish(json!({}));
+                return;
+            }
         }
     }
     ctx.finish(json!({}));
@@ -365,6 +371,7 @@ fn c12_one(ctx: &mut Ctx, c: &DayCase, r: &mut Rng) {
 }
 
 pub fn c12(ctx: &mut Ctx, tier: &str, r: &mut Rng, js: &[Value], reqs: &[String], replay_only: bool) {
+    purity_replay(ctx, js);
     for c in cases_from(js, reqs) {
         if f64::from(c.l.coords.latitude).abs() <= 62. {
             // the clauses are evaluated from a parameter set without minute offsets (the offset clause adds its own)
@@ -404,6 +411,12 @@ pub fn c12(ctx: &mut Ctx, tier: &str, r: &mut Rng, js: &[Value], reqs: &[String]
             ctx.sample(c.to_json());
         }
         c12_one(ctx, &c, r);
+        // "changing X changes only Y" presupposes that a result is a function of the arguments: one
+        // case in ten is also probed for dependence on the preceding call (all nine neighbours)
+        if i % 10 == 0 && !purity_probe(ctx, &c) {
+            ctx.finish(json!({}));
+            return;
+        }
     }
     ctx.finish(json!({}));
 }
